@@ -1,11 +1,13 @@
 (* Model/Roles.v — C11: the PSET v2 role operations as a state machine.
 
    Executable Gallina model (definitions only) of psetv2/{pset,creator,updater,signer,
-   blinder,finalizer}.go AS THE CODE IS: Pset.Copy is shallow (element writes of a staged
-   copy go through to the original; only the slice headers and the Global value — counts,
-   scalars — are staged), the single-field setters mutate first and sanity-check afterwards,
-   Locktime() prefers a height whenever any input has one, a height locktime is serialised
-   under the time-locktime key, counts are serialised as one-byte varints only below 253.
+   blinder,finalizer}.go AS THE CODE IS after the fix: commits c50dc2e, 1bba04e (serialiser),
+   3710385 (Locktime selects the time kind when an input is time-only) and fd68736 (Pset.Copy
+   copies Global, Inputs and Outputs; staged operations end in publish, which runs SanityCheck
+   on the staged packet FIRST and assigns only on success; SignInput works on the staged copy).
+   Still as before: the single-field setters mutate first and sanity-check afterwards; New
+   validates nothing; Input.GetUtxo writes the range proof into the stored previous output
+   (a shared object: it goes through any copy); issuances can be attached to finalized inputs.
 
    The state is abstract: it carries exactly what C11 talks about (declared counts, the list
    of inputs split into the part no operation changes after creation — outpoint, sequence,
@@ -218,13 +220,14 @@ Definition sanity_parts (auxs : list aux) (outs : list outp) (scalars : list N) 
            && existsb (fun o => needs_blinding_o o && negb (o_blinded o)) outs).
 Definition sanity (p : pset) := sanity_parts (p_auxs p) (p_outs p) (g_scalars p).
 
-(* Pset.Locktime as coded *)
+(* Pset.Locktime as coded (fix 3710385) *)
 Definition max_time (cs : list core) := fold_left (fun m c => N.max m (c_time c)) cs 0.
 Definition max_height (cs : list core) := fold_left (fun m c => N.max m (c_height c)) cs 0.
 Definition fallback_or_0 (p : pset) := match g_fallback p with Some n => n | None => 0 end.
 Definition locktime (p : pset) : N :=
   let h := max_height (p_cores p) in let t := max_time (p_cores p) in
-  if 0 <? h then h else if 0 <? t then t else fallback_or_0 p.
+  let time_only_seen := existsb (fun c => (0 <? c_time c) && (c_height c =? 0)) (p_cores p) in
+  if (0 <? h) && negb time_only_seen then h else if 0 <? t then t else fallback_or_0 p.
 
 (* the locktime BIP-370 prescribes: time if some input supports only time, else height if
    some input has one, else the fallback *)
@@ -558,12 +561,25 @@ Definition finalize_nonwitness (a : aux) : option aux :=
   else if negb (nonempty (a_redeem a)) then (if nsigs a =? 1 then Some (set_a_fss true a) else None)
   else if multisig_ok (or_empty (a_redeem a)) a then Some (set_a_fss true a) else None.
 
+(* finalizeTaprootInput's sigHashOK (fix 509b4c2): a 64-byte signature is SIGHASH_DEFAULT, which counts as ALL, and so
+   does an input that declares no type; the vocabulary's 65-byte signatures end in 0x03 (SIGHASH_SINGLE) *)
+Definition norm_sighash (t : N) : N := if t =? 0 then 1 else t.
+Definition tap_sig_ok (a : aux) (siglen : N) : bool :=
+  norm_sighash (if siglen =? 65 then 3 else 0) =? norm_sighash (a_sighash a).
+
 Definition finalize_taproot (a : aux) : option aux :=
   if finalized a then None
-  else if 0 <? a_tapkeysig a then Some (set_a_fsw true a)
+  else if 0 <? a_tapkeysig a then (if tap_sig_ok a (a_tapkeysig a) then Some (set_a_fsw true a) else None)
   else match a_tapss a with
        | [] => None
-       | _ => match a_tapleaves a with [] => None | _ => Some (set_a_fsw true a) end
+       | _ => match a_tapleaves a with
+              | [] => None
+              | leaf0 :: _ =>
+                (* the signatures for the first leaf: same leaf, full 32-byte hash *)
+                let mine := filter (fun s => (ts_leaf s =? leaf0) && (ts_lhlen s =? 32)) (a_tapss a) in
+                if negb (forallb (fun s => tap_sig_ok a (ts_siglen s)) mine) then None
+                else match mine with [] => None | _ => Some (set_a_fsw true a) end
+              end
        end.
 
 (* Finalize(p, i) on the input *)
@@ -741,18 +757,28 @@ Definition do_blind (p : pset) (a : blind_args) : (list aux * list outp * list N
         if negb (outargs_proofs p a outs_sorted) then stop auxs Err
         else if bl_gfail a =? 1 then stop auxs Err           (* calculateInputScalar: owned is not empty *)
         else match outs_sorted with [] => stop auxs Panic | _ =>
-          let auxs := fold_left (fun l x =>
+          (* from here on the staged copy is written; it is published only by publish *)
+          let auxs' := fold_left (fun l x =>
                         match nth_error l (N.to_nat (fst x)) with
                         | Some ax => set_nth (N.to_nat (fst x)) (set_a_issblind (snd x) ax) l
                         | None => l end) (bl_iss a) auxs in
           let '(outs, done) := blind_outs a outs_sorted (p_outs p) in
-          if negb done then ((auxs, outs, g_scalars p), Err)
+          if negb done then stop auxs Err
           else
             let scalars := if bl_last a then [] else g_scalars p ++ [bl_scalar a] in
-            ((auxs, outs, scalars), if sanity_parts auxs outs scalars then Ok else Err)
+            if sanity_parts auxs' outs scalars then ((auxs', outs, scalars), Ok) else stop auxs Err
         end
       end
   end end.
+
+(* Pset.publish: SanityCheck of the staged packet first, assignment only on success *)
+Definition publish (p staged : pset) : pset * outcome := if sanity staged then (staged, Ok) else (p, Err).
+
+(* a staged operation given as "written parts": anything but success leaves the packet as it was
+   (an early `return nil` changes nothing either) *)
+Definition staged_parts (p : pset) (r : (list aux * list outp * list N) * outcome)
+  : (list aux * list outp * list N) * outcome :=
+  match snd r with Ok => r | o => ((p_auxs p, p_outs p, g_scalars p), o) end.
 
 (* ---- updater.go AddInIssuance / AddInReissuance ---- *)
 Definition addr_ok (c : N) := (c =? 1) || (c =? 2).
@@ -779,13 +805,13 @@ Definition do_issue (p : pset) (i : Z) (a : issue_args) : pset * outcome :=
     else
       let ax' := set_a_blindediss (Some (is_blinded a)) (set_a_nonce true (set_a_isskeys (is_tamt a)
                    (set_a_issval (is_aamt a) (set_a_entropy true ax)))) in
-      (* written through the shallow copy: visible in the original whatever happens next *)
+      (* on the staged copy *)
       let p1 := upd p (set_nth n ax' (p_auxs p)) (p_outs p) (g_scalars p) in
       let outs := mk_out (is_aamt a) (is_aaddr a) (Z.to_N i)
                   :: (if 0 <? is_tamt a then [mk_out (is_tamt a) (is_taddr a) (Z.to_N i)] else []) in
       match add_outputs p1 outs with
-      | None => (p1, Err)
-      | Some p2 => (p2, if sanity p2 then Ok else Err)
+      | None => (p, Err)
+      | Some p2 => publish p p2
       end
   end end.
 
@@ -807,7 +833,7 @@ Definition do_reissue (p : pset) (i : Z) (a : reissue_args) : pset * outcome :=
       | Some p1 =>
         let ax' := set_a_nonce true (set_a_issval (ri_aamt a) (set_a_entropy true ax)) in
         let p2 := upd p1 (set_nth n ax' (p_auxs p1)) (p_outs p1) (g_scalars p1) in
-        (p2, if sanity p2 then Ok else Err)
+        publish p p2
       end
   end.
 
@@ -858,9 +884,9 @@ Definition local_step (p : pset) (o : op) : (list aux * list outp * list N) * ou
   | OTapMr i len =>
     on_input p i false (fun c a => if 0 <? a_tapmr a then (a, LErr) else (set_a_tapmr len a, LSan))
   | OTapLeaf i l =>
-    on_input p i false (fun c a =>
-      if existsb (fun x => x =? l) (a_tapleaves a) then (a, LErr) else (set_a_tapleaves (a_tapleaves a ++ [l]) a, LSan))
-  | OTapBip32 i d => on_input p i false (fun c a => (set_a_tapbip32 (a_tapbip32 a ++ [d]) a, LSan))
+    staged_parts p (on_input p i false (fun c a =>
+      if existsb (fun x => x =? l) (a_tapleaves a) then (a, LErr) else (set_a_tapleaves (a_tapleaves a ++ [l]) a, LSan)))
+  | OTapBip32 i d => staged_parts p (on_input p i false (fun c a => (set_a_tapbip32 (a_tapbip32 a ++ [d]) a, LSan)))
   | OOutBip32 i k pathne =>
     on_output p i (fun o =>
       match k with
@@ -872,17 +898,17 @@ Definition local_step (p : pset) (o : op) : (list aux * list outp * list N) * ou
   | OSign i sigok h k rs ws =>
     match in_index p i true with
     | inr o => (same, o)
-    | inl (n, _, _) => on_input p i true (sign_local (rest_sane p n) (blocked p) sigok h k rs ws)
+    | inl (n, _, _) => staged_parts p (on_input p i true (sign_local (rest_sane p n) (blocked p) sigok h k rs ws))
     end
   | OTapKeySig i len =>
-    on_input p i true (fun c a =>
+    staged_parts p (on_input p i true (fun c a =>
       if finalized a then (a, LOk)
-      else match a_tapss a with [] => (set_a_tapkeysig len a, LSan) | _ => (a, LErr) end)
+      else match a_tapss a with [] => (set_a_tapkeysig len a, LSan) | _ => (a, LErr) end))
   | OTapScriptSig i s =>
-    on_input p i true (fun c a =>
+    staged_parts p (on_input p i true (fun c a =>
       if finalized a then (a, LOk)
       else if 0 <? a_tapkeysig a then (a, LErr)
-      else (set_a_tapss (a_tapss a ++ [s]) a, LSan))
+      else (set_a_tapss (a_tapss a ++ [s]) a, LSan)))
   | OBlind a => do_blind p a
   | OFinalize i =>
     (* Finalize indexes p.Inputs directly *)
@@ -904,8 +930,9 @@ Definition local_step (p : pset) (o : op) : (list aux * list outp * list N) * ou
          | _, _ => (same, Panic)
          end
   | OFinalizeAll =>
+    (* on an independent copy, assigned back when every Finalize succeeded *)
     let '(auxs, o) := finalize_loop finalize_local (p_cores p) 0 (length (p_cores p)) (p_auxs p) (p_outs p) (g_scalars p) in
-    ((auxs, p_outs p, g_scalars p), o)
+    staged_parts p ((auxs, p_outs p, g_scalars p), o)
   | OMaybeFinalizeAll =>
     let '(auxs, o) := finalize_loop maybe_finalize_local (p_cores p) 0 (length (p_cores p)) (p_auxs p) (p_outs p) (g_scalars p) in
     ((auxs, p_outs p, g_scalars p), o)
@@ -929,13 +956,13 @@ Definition step (p : pset) (o : op) : pset * outcome :=
     if negb (forallb (fun a => ia_cls a =? 0) l) then (p, Err)
     else match add_inputs p l with
          | None => (p, Err)
-         | Some p' => (p', if sanity p' then Ok else Err)
+         | Some p' => publish p p'
          end
   | OAddOutputs l =>
     if negb (forallb outarg_valid l) then (p, Err)
     else match add_outputs p (map to_outp l) with
          | None => (p, Err)
-         | Some p' => (p', if sanity p' then Ok else Err)
+         | Some p' => publish p p'
          end
   | OIssue i a => do_issue p i a
   | OReissue i a => do_reissue p i a
@@ -949,25 +976,27 @@ Fixpoint nodup_n (l : list N) : bool :=
   match l with [] => true | x :: l' => negb (existsb (fun y => y =? x) l') && nodup_n l' end.
 
 Definition core_reparses (c : core) : bool :=
-  negb (c_short c)                                   (* a 31-byte txid is written but not read back *)
-  && negb (negb (c_time c =? 0) && negb (c_height c =? 0)).   (* both locktimes: two entries under key 0x11 *)
+  negb (c_short c).                                  (* a 31-byte txid is written but not read back *)
 
+(* (a derivation with an empty path is read back since fix 2b1b006) *)
 Definition aux_reparses (a : aux) : bool :=
-  forallb (fun x => snd x) (a_bip32 a)               (* a derivation with an empty path is rejected on parse *)
-  && forallb (fun s => ts_pklen s + ts_lhlen s =? 64) (a_tapss a)
+  forallb (fun s => ts_pklen s + ts_lhlen s =? 64) (a_tapss a)
   && nodup_n (map ts_pk (a_tapss a))
-  && nodup_n (map tb_key (a_tapbip32 a))
-  && forallb (fun d => tb_path d) (a_tapbip32 a).
+  && nodup_n (map tb_key (a_tapbip32 a)).
 
 Definition out_reparses (o : outp) : bool :=
-  (o_assetlen o =? 32) && negb (o_bk o =? 2) && forallb (fun x => snd x) (o_bip32 o).
+  (o_assetlen o =? 32) && negb (o_bk o =? 2).
 
 Definition rt (p : pset) : bool :=
   sanity p
   && (g_nin p =? N.of_nat (length (p_cores p))) && (g_nout p =? N.of_nat (length (p_outs p)))
-  && (g_nin p <? 253) && (g_nout p <? 253)          (* counts are read back from ONE byte *)
   && (match g_flags p with None => true | Some f => f <? 8 end)
   && nodup_n (g_scalars p)
   && forallb core_reparses (p_cores p) && forallb aux_reparses (p_auxs p) && forallb out_reparses (p_outs p).
+
+(* the class the harness prints: "diff" (parses, but not to the same packet) has no counterpart in the
+   model since fix c50dc2e: any such answer of the implementation is a disagreement *)
+Inductive rtc := RtSame | RtDiff | RtFail.
+Definition rt_class (p : pset) : rtc := if rt p then RtSame else RtFail.
 
 End R11.
